@@ -304,17 +304,17 @@ Section Dec.
   End Position.
   (* hypothesis-free instance: the executable reader of `run` (the one the correspondence ties
      to dns.message.from_wire) never ends in a Python-level exception *)
-  Theorem message_from_wire_concrete bits :
-    match message_from_wire wire (dec_rdata wire None) (opts_of_bits bits) with
+  Theorem message_from_wire_concrete (origin : option name) bits :
+    match message_from_wire wire (dec_rdata wire origin) (opts_of_bits bits) with
     | (Exn (XInt _), _) => False
     | (Exn (XLib e), m) =>
         (is_form e = true \/ e = eUnknownTSIGKey) \/ (e = eTruncated /\ o_raise_trunc (opts_of_bits bits) = true)
     | (Val _, m) => True
     end.
   Proof.
-    pose proof (message_from_wire_family wire Hwire (dec_rdata wire None)
-                  (fun c t => dec_rdata_disciplined None c t) (opts_of_bits bits)) as H.
-    destruct (message_from_wire wire (dec_rdata wire None) (opts_of_bits bits)) as [[a|[e|e]] m]; auto.
+    pose proof (message_from_wire_family wire Hwire (dec_rdata wire origin)
+                  (fun c t => dec_rdata_disciplined origin c t) (opts_of_bits bits)) as H.
+    destruct (message_from_wire wire (dec_rdata wire origin) (opts_of_bits bits)) as [[a|[e|e]] m]; auto.
     destruct H as (_ & H). exact H.
   Qed.
 End Dec.
